@@ -103,6 +103,10 @@ type caseT struct {
 	Where string   `json:"where,omitempty"`
 	Cents []IV     `json:"cents,omitempty"` // decimal kind: d = cents/100 per row (g from Rows)
 	RDesc bool     `json:"range_desc,omitempty"`
+	Strs  []SV     `json:"strs,omitempty"` // gconcat kind: s per row
+	GCD   bool     `json:"gc_distinct,omitempty"`
+	GCO   string   `json:"gc_order,omitempty"` // "", "asc", "desc"
+	GCS   *string  `json:"gc_sep,omitempty"`   // nil: default ','
 	SQL   []string `json:"sql,omitempty"`
 }
 
@@ -348,6 +352,26 @@ func gen(r *lib.RNG) caseT {
 		cs.Cents = make([]IV, len(cs.Rows))
 		for i := range cs.Cents {
 			cs.Cents[i] = genIV(r, 1, 5, -5000, 90000)
+		}
+		return cs
+	case 3: // GROUP_CONCAT
+		cs.Kind = "gconcat"
+		cs.Strs = make([]SV, len(cs.Rows))
+		for i := range cs.Strs {
+			switch r.Intn(7) {
+			case 0:
+				cs.Strs[i] = SV{Null: true}
+			case 1:
+				cs.Strs[i] = SV{S: ""}
+			default:
+				cs.Strs[i] = SV{S: lib.Pick(r, []string{"a", "b", "ab", "B", "a,b", "x|y", "0"})}
+			}
+		}
+		cs.GCD = r.Bool()
+		cs.GCO = lib.Pick(r, []string{"", "asc", "desc", "asc"})
+		if r.Bool() {
+			sp := lib.Pick(r, []string{"|", "", "--", ", "})
+			cs.GCS = &sp
 		}
 		return cs
 	case 1, 2: // RANGE frames: integer order keys without NULL, gaps and ties
@@ -884,6 +908,155 @@ func runDecimal(c *lib.Ctx, cs caseT) {
 	}
 }
 
+// ---------- GROUP_CONCAT ----------
+
+type SV struct {
+	Null bool   `json:"null,omitempty"`
+	S    string `json:"s,omitempty"`
+}
+
+func coqBytesOpt(v SV) string {
+	if v.Null {
+		return "None"
+	}
+	return "(Some " + lib.CoqStr(v.S) + ")"
+}
+
+func runGroupConcat(c *lib.Ctx, cs caseT) {
+	e := eng.New("db")
+	s := e.Session()
+	s.MustExec("CREATE TABLE tg (id BIGINT PRIMARY KEY, g BIGINT, s VARCHAR(40))")
+	for i, r := range cs.Rows {
+		v := "NULL"
+		if !cs.Strs[i].Null {
+			v = "'" + cs.Strs[i].S + "'"
+		}
+		s.MustExec(fmt.Sprintf("INSERT INTO tg VALUES (%d, %d, %s)", r.ID, r.G, v))
+	}
+	arg := "s"
+	if cs.GCD {
+		arg = "DISTINCT s"
+	}
+	switch cs.GCO {
+	case "asc":
+		arg += " ORDER BY id"
+	case "desc":
+		arg += " ORDER BY id DESC"
+	}
+	sep := ","
+	if cs.GCS != nil {
+		sep = *cs.GCS
+		arg += " SEPARATOR '" + sep + "'"
+	}
+	q := "SELECT g, GROUP_CONCAT(" + arg + ") FROM tg GROUP BY g"
+	cs.SQL = []string{q}
+	res := s.Query(q)
+	if res.Err != nil {
+		id := mkCaseNM(c, cs, "")
+		c.PredChecked()
+		c.PredFail(id, "group-concat/error", fmt.Sprintf("%s: %v", q, res.Err), cs)
+		return
+	}
+	type rec struct {
+		id int64
+		v  SV
+	}
+	byG := map[int64][]rec{}
+	for i, r := range cs.Rows {
+		byG[r.G] = append(byG[r.G], rec{r.ID, cs.Strs[i]})
+	}
+	for _, row := range res.Rows {
+		g, _ := row[0].(int64)
+		rs := byG[g]
+		// arrival order without ORDER BY: the table scan of a keyed table is in primary-key order
+		sort.SliceStable(rs, func(i, j int) bool { return rs[i].id < rs[j].id })
+		var obsS *string
+		switch x := row[1].(type) {
+		case string:
+			obsS = &x
+		case []byte:
+			t := string(x)
+			obsS = &t
+		}
+		var items []string
+		for _, r := range rs {
+			items = append(items, fmt.Sprintf("(%s, %s)", lib.CoqZ(r.id), coqBytesOpt(r.v)))
+		}
+		order := "None"
+		switch cs.GCO {
+		case "asc":
+			order = "(Some false)"
+		case "desc":
+			order = "(Some true)"
+		}
+		ob := "None"
+		if obsS != nil {
+			ob = "(Some " + lib.CoqStr(*obsS) + ")"
+		}
+		term := fmt.Sprintf("CGC %s %s %s %s %s", lib.CoqBool(cs.GCD), order, lib.CoqStr(sep), lib.CoqList(items), ob)
+		key := ""
+		if len(rs) >= 2 {
+			key = fmt.Sprintf("gc|%s|%v", arg, rs)
+		}
+		id := mkCase(c, term, cs, key)
+		c.Count("group_concat")
+		c.PredChecked()
+		// the definition: NULLs skipped, empty strings kept, DISTINCT, ORDER BY id, separator, 1024 bytes
+		ord := append([]rec(nil), rs...)
+		if cs.GCO == "desc" {
+			sort.SliceStable(ord, func(i, j int) bool { return ord[i].id > ord[j].id })
+		}
+		var vals []string
+		hasEmpty := false
+		seenV := map[string]bool{}
+		// DISTINCT removes duplicates before ordering; with ORDER BY id the survivor of equal strings is irrelevant to the text
+		// except for its position: MySQL orders the distinct values by the key of the row kept; keep the first in arrival order
+		keep := map[int64]bool{}
+		for _, r := range rs {
+			if r.v.Null {
+				continue
+			}
+			if cs.GCD {
+				if seenV[r.v.S] {
+					continue
+				}
+				seenV[r.v.S] = true
+			}
+			keep[r.id] = true
+		}
+		for _, r := range ord {
+			if keep[r.id] {
+				vals = append(vals, r.v.S)
+				if r.v.S == "" {
+					hasEmpty = true
+				}
+			}
+		}
+		var want *string
+		if len(vals) > 0 {
+			w := strings.Join(vals, sep)
+			if len(w) > 1024 {
+				w = w[:1024]
+			}
+			want = &w
+		}
+		same := (want == nil) == (obsS == nil) && (want == nil || *want == *obsS)
+		if !same {
+			sig := "group-concat/wrong-value"
+			if hasEmpty {
+				sig = "group-concat/empty-string-skipped"
+			}
+			show := func(p *string) string {
+				if p == nil {
+					return "NULL"
+				}
+				return fmt.Sprintf("%q", *p)
+			}
+			c.PredFail(id, sig, fmt.Sprintf("%s: group g=%d rows %v returned %s, definition gives %s", q, g, rs, show(obsS), show(want)), cs)
+		}
+	}
+}
+
 // ---------- RANGE frames over an integer order key: implementation-side reference only ----------
 
 func runRange(c *lib.Ctx, cs caseT) {
@@ -1082,6 +1255,8 @@ func run(c *lib.Ctx, cs caseT) {
 		runDecimal(c, cs)
 	case "range":
 		runRange(c, cs)
+	case "gconcat":
+		runGroupConcat(c, cs)
 	default:
 		runWindow(c, cs)
 	}
@@ -1114,6 +1289,19 @@ func main() {
 		run(c, caseT{Kind: "group", Rows: corpus, Where: "id > 1000"})
 		run(c, caseT{Kind: "group", Rows: []Rec{}})
 		run(c, caseT{Kind: "decimal", Rows: corpus, Cents: []IV{iv(10), iv(20), iv(135), null, iv(-250), iv(99999)}})
+		gcRows := []Rec{{ID: 1, G: 1}, {ID: 2, G: 1}, {ID: 3, G: 1}, {ID: 4, G: 2}, {ID: 5, G: 2}, {ID: 6, G: 3}}
+		gcStrs := []SV{{S: "a"}, {S: ""}, {S: "b"}, {Null: true}, {S: "a"}, {Null: true}}
+		bar := "|"
+		run(c, caseT{Kind: "gconcat", Rows: gcRows, Strs: gcStrs})
+		run(c, caseT{Kind: "gconcat", Rows: gcRows, Strs: gcStrs, GCD: true, GCO: "desc", GCS: &bar})
+		var longRows []Rec
+		var longStrs []SV
+		for i := 1; i <= 90; i++ {
+			longRows = append(longRows, Rec{ID: int64(i), G: 1})
+			longStrs = append(longStrs, SV{S: fmt.Sprintf("value-%04d-abcdefgh", i%37)})
+		}
+		run(c, caseT{Kind: "gconcat", Rows: longRows, Strs: longStrs, GCO: "desc"})
+		run(c, caseT{Kind: "gconcat", Rows: longRows, Strs: longStrs, GCD: true, GCO: "asc", GCS: &bar})
 		rk := []Rec{{1, 1, iv(0), iv(5)}, {2, 1, iv(1), iv(7)}, {3, 1, iv(1), null}, {4, 1, iv(2), iv(1)}, {5, 1, iv(5), iv(3)}, {6, 2, iv(4), null}, {7, 2, iv(4), iv(2)}}
 		run(c, caseT{Kind: "range", Rows: rk, SB: Bound{Kind: "P", N: 2}, EB: Bound{Kind: "P", N: 1}})
 		run(c, caseT{Kind: "range", Rows: rk, SB: Bound{Kind: "P", N: 3}, EB: Bound{Kind: "P", N: 2}})
